@@ -418,6 +418,62 @@ pub fn run(tier: Tier, totals: &mut Totals) {
     }
     totals.extra.insert("search".into(), json!(levels));
     scale(tier, totals);
+    prefix_family(totals);
+}
+
+/// Names that are prefixes of one another: every subset of nine look-alike names defined, then one
+/// prefix operation (clear_scope / unset_all_vars --prefix with four arguments): exactly the names
+/// the operation speaks of are gone.
+fn prefix_family(totals: &mut Totals) {
+    let names = ["p::a", "p::b::c", "p2::a", "pp::a", "p", "px", "q::p::a", "p:a", "P::a"];
+    let ops: [(&str, Vec<&str>); 8] = [
+        ("clear_scope", vec!["p"]),
+        ("clear_scope", vec!["p2"]),
+        ("clear_scope", vec!["q"]),
+        ("clear_scope", vec!["p::b"]),
+        ("unset_all_vars", vec!["--prefix", "p"]),
+        ("unset_all_vars", vec!["--prefix", "p::"]),
+        ("unset_all_vars", vec!["--prefix", "p2"]),
+        ("unset_all_vars", vec!["--prefix", "q::p"]),
+    ];
+    for mask in 0u32..(1 << names.len()) {
+        for (cmd, args) in &ops {
+            totals.evals += 1;
+            totals.transitions += 1;
+            totals.traces += 1;
+            let mut s = Session::new();
+            let mut model: BTreeMap<String, String> = BTreeMap::new();
+            for (i, n) in names.iter().enumerate() {
+                if mask & (1 << i) != 0 {
+                    s.variables.insert(n.to_string(), format!("v{}", i));
+                    model.insert(n.to_string(), format!("v{}", i));
+                }
+            }
+            let a: Vec<String> = args.iter().map(|x| x.to_string()).collect();
+            let r = s.call(cmd, &a.iter().map(|x| x.as_str()).collect::<Vec<_>>());
+            if *cmd == "clear_scope" {
+                let pre = format!("{}::", args[0]);
+                model.retain(|k, _| !k.starts_with(&pre));
+            } else {
+                model.retain(|k, _| !k.starts_with(args[1]));
+            }
+            let got = sorted_vars(&s.variables);
+            if got != model || matches!(r, Out::Panic(_)) {
+                if mask.count_ones() > 1 {
+                    totals.nontrivial += 1;
+                }
+                let sig = format!("prefix:{}:variables-differ", cmd);
+                let what = format!("{} {:?} on {:?}: variables afterwards {:?}, model {:?} (result {:?})", cmd, args, names.iter().enumerate().filter(|(i, _)| mask & (1 << i) != 0).map(|(_, n)| *n).collect::<Vec<_>>(), got.keys().collect::<Vec<_>>(), model.keys().collect::<Vec<_>>(), r);
+                let e = totals.failures.entry(sig.clone()).or_insert((0, vec![]));
+                e.0 += 1;
+                if e.1.len() < 2 {
+                    e.1.push(json!({"idx": mask, "sig": sig, "what": what, "replay": {"kind": "prefix", "mask": mask, "command": cmd, "args": args}}));
+                }
+            } else if mask.count_ones() > 1 {
+                totals.nontrivial += 1;
+            }
+        }
+    }
 }
 
 /// Depth and size far beyond the search bound: a scope stack hundreds of maps deep and a map with
@@ -461,6 +517,9 @@ pub fn replay(case: &Value) -> Result<String, String> {
     if let Some(r) = crate::util::scale_replay(case) {
         return r;
     }
+    if case["kind"].as_str() == Some("prefix") {
+        return Ok("re-run the check: the case is rebuilt from mask, command and arguments by the generator".to_string());
+    }
     // histories are recorded as debug strings of ops; re-run them through a fresh system by name
     let hist: Vec<String> = case["history"]
         .as_array()
@@ -503,7 +562,7 @@ pub fn replay(case: &Value) -> Result<String, String> {
     Err("history uses operations outside the alphabet".into())
 }
 
-pub const RULE: &str = "explicit-state breadth-first search from the empty context: every operation of the alphabet (set via a one-line script; set_by_name with/without value, get_by_name, is_defined, unset with 1-2 names, get_all_var_names, unset_all_vars plain and --prefix, clear_scope, scope_push_stack / scope_pop_stack without --copy and with every --copy list of 0..2 names) is applied to every reachable state; pushes are disabled at the stack-depth bound so the space is finite and searched to a fixpoint. Each transition runs the real command, compares its output, the complete variable map, the saved maps inside the scope stack and the handle table with the model (map + stack of maps). States are de-duplicated on the implementation's own state (variables and the whole state map). evaluations = transitions; distinct_nontrivial = distinct states. Scale cases (scripts, results computed in Rust): a scope stack 10/70/300 (thorough 1000, 3000) levels deep pushed and popped with --copy, a pop on the emptied stack; 10..300 variables written and read by name and removed by prefix";
+pub const RULE: &str = "explicit-state breadth-first search from the empty context: every operation of the alphabet (set via a one-line script; set_by_name with/without value, get_by_name, is_defined, unset with 1-2 names, get_all_var_names, unset_all_vars plain and --prefix, clear_scope, scope_push_stack / scope_pop_stack without --copy and with every --copy list of 0..2 names) is applied to every reachable state; pushes are disabled at the stack-depth bound so the space is finite and searched to a fixpoint. Each transition runs the real command, compares its output, the complete variable map, the saved maps inside the scope stack and the handle table with the model (map + stack of maps). States are de-duplicated on the implementation's own state (variables and the whole state map). evaluations = transitions; distinct_nontrivial = distinct states. Prefix family: every subset of nine look-alike names {p::a, p::b::c, p2::a, pp::a, p, px, q::p::a, p:a, P::a} x clear_scope p / p2 / q / p::b and unset_all_vars --prefix p / p:: / p2 / q::p: exactly the names the operation speaks of are removed. Scale cases (scripts, results computed in Rust): a scope stack 10/70/300 (thorough 1000, 3000) levels deep pushed and popped with --copy, a pop on the emptied stack; 10..300 variables written and read by name and removed by prefix";
 pub const ASSUMPTIONS: &[&str] = &["names from {a,b,p::a} (thorough also {a,ab,p::a,p}), values from {1, empty, 'x y'}", "for a name that is undefined when copied on pop the model follows the implementation between 'restored' and 'undefined'", "operations other than `name = set value` are run through run_instruction (outputs observed directly, no output variable)"];
 pub const EXHAUSTIVE: bool = true;
 pub const WALL_CAP_S: (u64, u64) = (50, 1500);
